@@ -49,23 +49,28 @@ struct HeqPolicies
 };
 
 using EQ = eventpp::EventQueue<int, void (int), EqPolicies>;
-using HEQ = eventpp::HeterEventQueue<int, eventpp::HeterTuple<void (int)>, HeqPolicies>;
+using HEQ = eventpp::HeterEventQueue<int, eventpp::HeterTuple<void (int), void (int, int)>, HeqPolicies>;
 
+extern int g_running;
+
+// EQ: model key k is event k.  HEQ has two prototypes: model key k is (event k / 2, prototype k % 2),
+// so that one event's HeterCallbackList can hold a prototype list that exists but is empty.
 template <typename Q> struct Ops;
 
 template <> struct Ops<EQ>
 {
-	static void append(EQ & q, int o, int k, int c) { q.appendListener(k, [o, c, k](int a) { std::printf("call %d %d %d %d\n", o, c, k, a); }); }
-	static void addFilter(EQ & q, int o, int c, bool v) { q.appendFilter([o, c, v](int & a) -> bool { std::printf("filter %d %d %d\n", o, c, a); return v; }); }
+	static void append(EQ & q, int k, int c) { q.appendListener(k, [c, k](int a) { std::printf("call %d %d %d %d\n", g_running, c, k, a); }); }
 	static void dispatch(EQ & q, int k, int a) { q.dispatch(k, a); }
 	static void enqueue(EQ & q, int k, int a) { q.enqueue(k, a); }
 };
 template <> struct Ops<HEQ>
 {
-	static void append(HEQ & q, int o, int k, int c) { q.appendListener(k, [o, c, k](int a) { std::printf("call %d %d %d %d\n", o, c, k, a); }); }
-	static void addFilter(HEQ &, int, int, bool) { std::printf("harness-error no filters on heq\n"); std::fflush(stdout); std::abort(); }
-	static void dispatch(HEQ & q, int k, int a) { q.dispatch(k, a); }
-	static void enqueue(HEQ & q, int k, int a) { q.enqueue(k, a); }
+	static void append(HEQ & q, int k, int c) {
+		if(k % 2 == 0) q.appendListener(k / 2, [c, k](int a) { std::printf("call %d %d %d %d\n", g_running, c, k, a); });
+		else q.appendListener(k / 2, [c, k](int a, int) { std::printf("call %d %d %d %d\n", g_running, c, k, a); });
+	}
+	static void dispatch(HEQ & q, int k, int a) { if(k % 2 == 0) q.dispatch(k / 2, a); else q.dispatch(k / 2, a, a); }
+	static void enqueue(HEQ & q, int k, int a) { if(k % 2 == 0) q.enqueue(k / 2, a); else q.enqueue(k / 2, a, a); }
 };
 
 // NOTE: listeners print the object index they were ADDED to; after a copy the copied listener
@@ -111,12 +116,11 @@ struct Runner : Base
 	{
 		using vh::num;
 		const std::string & op = c[0];
-		if(op == "append") { Q & q = at(num(c[1])); const int k = (int)num(c[2]), cb = (int)num(c[3]);
-			q.appendListener(k, [cb, k](int a) { std::printf("call %d %d %d %d\n", g_running, cb, k, a); }); }
+		if(op == "append") { Ops<Q>::append(at(num(c[1])), (int)num(c[2]), (int)num(c[3])); }
 		else if(op == "addfilter") { addFilter(at(num(c[1])), (int)num(c[2]), c[3] == "1"); }
-		else if(op == "enqueue") { at(num(c[1])).enqueue((int)num(c[2]), (int)num(c[3])); }
+		else if(op == "enqueue") { Ops<Q>::enqueue(at(num(c[1])), (int)num(c[2]), (int)num(c[3])); }
 		else if(op == "process") { g_running = (int)num(c[1]); std::printf("ret %d\n", (int)at(num(c[1])).process()); }
-		else if(op == "dispatch") { g_running = (int)num(c[1]); at(num(c[1])).dispatch((int)num(c[2]), (int)num(c[3])); }
+		else if(op == "dispatch") { g_running = (int)num(c[1]); Ops<Q>::dispatch(at(num(c[1])), (int)num(c[2]), (int)num(c[3])); }
 		else if(op == "emptyq") { std::printf("ret %d\n", (int)at(num(c[1])).emptyQueue()); }
 		else if(op == "canprocess") { std::printf("ret %d\n", (int)at(num(c[1])).doCanProcess()); }
 		else if(op == "guardbegin") { Q & q = at(num(c[1])); if(num(c[2]) == 0) ++q.queueEmptyCounter; else guards[num(c[1])].begin(q); }
